@@ -796,6 +796,7 @@ func collectionOf(vm *VM, agg func([]Term, *Env) Term, template, goal, instances
 
 func variant(t1, t2 Term, env *Env) bool {
 	s := map[Variable]Variable{}
+	r := map[Variable]Variable{} // the inverse of s: a variant is a renaming, so the mapping has to be one to one.
 	rest := [][2]Term{
 		{t1, t2},
 	}
@@ -812,7 +813,11 @@ func variant(t1, t2 Term, env *Env) bool {
 						return false
 					}
 				} else {
+					if w, ok := r[y]; ok && w != x {
+						return false
+					}
 					s[x] = y
+					r[y] = x
 				}
 			default:
 				return false
